@@ -1323,6 +1323,10 @@ class Explorer:
             s.add(z3.And(*[e.term != v for v in e.tried]) if len(e.tried) > 1 else e.term != e.tried[0])
             t0 = time.time()
             r = str(s.check())
+            if r == "unknown":
+                # (seen under heavy machine load on plain integer queries) one more attempt with a larger budget
+                s.set("timeout", self.qtimeout_ms * 6)
+                r = str(s.check())
             self.stats.queries += 1
             self.stats.solver_s += time.time() - t0
             if r == "sat":
